@@ -155,6 +155,55 @@ def plan_for(ctx, n):
                 p_porcelain=0.1, p_porcelain_slow=0.3, n_porcelain=1)
 
 
+def views_cfg(d, name, n):
+    path = os.path.join(d, name + ".cfg")
+    tlc.write_cfg(path, spec="Spec", constants={"MaxExtra": 5, "N": n}, invariants=["ViewOK"])
+    return path
+
+
+def replay_views(ctx, pool, n, res, dump_path, clocks, limit, label):
+    """GraphViews: every (canonical DAG, cut of one commit) TLC enumerated, each with the commit-graph
+    extents that still describe the uncut commit.  Replays them (all, or a seed-determined sample of
+    `limit`) on real repositories; clocks = the weak orders GraphCases enumerated for the same DAG."""
+    t0 = time.time()
+    ctx.add_tlc(f"GraphViews N={n}: all canonical DAGs x every shallow boundary / graft point on one commit", res)
+    try:
+        items, roots = L.read_views(dump_path, n)
+        if roots != 2 ** (n * (n - 1) // 2) or roots + len(items) != res.distinct:
+            raise ValueError(f"{roots} DAGs, {len(items)} cuts, TLC reported {res.distinct} states")
+    except ValueError as e:
+        raise MachineryError(f"state dump of GraphViews N={n} unusable: {e}")
+    os.remove(dump_path + ".dump")
+    total = len(items)
+    items.sort()
+    if limit and limit < total:
+        items = ctx.rng.sample(items, limit)
+    per = max(4, len(items) // (PROCS * 6))
+    tasks = [dict(n=n, items=items[i:i + per], seed=ctx.seed, p_model=0.01,
+                  clocks={p: [ts for ts, _ in clocks.get(p, [])] for p in {it[0] for it in items[i:i + per]}})
+             for i in range(0, len(items), per)]
+    stats = {"cases": 0, "queries": 0, "suspect": 0, "by_kind": {}}
+    records = []
+    for r in pool.imap_unordered(L.run_views, tasks, chunksize=1):
+        stats["cases"] += r["cases"]
+        stats["queries"] += r["queries"]
+        stats["suspect"] += r["suspect_q"]
+        for k, v in r["by_kind"].items():
+            b = stats["by_kind"].setdefault(k, [0, 0])
+            b[0] += v[0]
+            b[1] += v[1]
+        records += r["records"]
+    ctx.count(stats["queries"])
+    ctx.validated(stats["queries"])
+    ctx.log(f"{label}: {total} TLC cases (DAG x cut); replayed {stats['cases']} of them, each under 2 clocks x "
+            f"{{complete, one stale/partial}} commit-graph and once without: {stats['queries']} real queries, {stats['suspect']} do not "
+            f"match the table ({', '.join(f'{k}:{v[1]}/{v[0]}' for k, v in sorted(stats['by_kind'].items()))})  [{time.time() - t0:.0f}s]")
+    ctx.cov.setdefault("replay", []).append({"label": label, "n": n, "tlc_cases": total, "tlc_cases_replayed": stats["cases"],
+                                             "complete": stats["cases"] == total, "queries": stats["queries"],
+                                             "mismatch": stats["suspect"], "by_kind": stats["by_kind"]})
+    return records
+
+
 def replay_dump(ctx, pool, n, dump, label, budget_s):
     """Replay the TLC-enumerated cases of one dump on the real code.  DAGs are taken in a
     seed-determined order; no new DAG is started after budget_s seconds (the evidence says how
@@ -564,7 +613,11 @@ def judge(ctx, records, usemin, reduce, label):
             "h", "nr", "oct", "all")
     lines = []
     for r in records:
+        cut = [[] for _ in r["par"]]
+        for c, v in (r.get("cuts") or {}).items():
+            cut[int(c) - 1] = [0] if v[0] == "shallow" else [1] + list(v[1])
         o = {"tid": r["tid"], "par": r["par"], "ts": r["ts"], "rank": r["rank"], "cg": r.get("cg") or [],
+             "opar": r.get("obj_par") or r["par"], "cut": cut,
              "q": [{k: q[k] for k in keep if k in q} for q in r["q"]]}
         line = json.dumps(o, separators=(",", ":"))
         lines.append((len(line) * (1 + len(r["par"]) / 12.0), line))
@@ -693,6 +746,8 @@ def run(ctx):
         jobs.submit("cases5", "GraphCases.tla", cases_cfg(d, "cases5", 5, 5, 3, seed), dump_states=os.path.join(d, "cases5"), workers=2)
     else:
         jobs.submit("cases5", "GraphCases.tla", cases_cfg(d, "cases5", 5, 5, 0, seed), dump_states=os.path.join(d, "cases5"), workers=2)
+    jobs.submit("views4", "GraphViews.tla", views_cfg(d, "views4", 4), dump_states=os.path.join(d, "views4"), workers=1)
+    jobs.submit("views5", "GraphViews.tla", views_cfg(d, "views5", 5), dump_states=os.path.join(d, "views5"), workers=2)
     jobs.submit("neg_walk", "GraphMC.tla", mc_cfg(ctx, d, "neg_walk", n=4, l=3, mode="walk", usemin=True, reduce=False,
                                                   maxextra=1, inv=["WalkExcludes"]), workers=2)
     if not ctx.quick:
@@ -763,11 +818,18 @@ def run(ctx):
                 ctx.log(f"state dump of {name} unusable ({e}); running TLC again")
                 jobs.submit(name, "GraphCases.tla", cases_cfg(d, name, n, l, k, seed), dump_states=path, workers=4)
     try:
-        records += replay_dump(ctx, pool, 4, enumerated("cases4", 4, 4, 0, "all 64 canonical DAGs x all 75 weak orders of timestamps"),
-                               "N=4 exhaustive", ctx.pick(22, 240))
-        records += replay_dump(ctx, pool, 5, enumerated("cases5", 5, 5, ctx.pick(3, 0), "all 1024 canonical DAGs x "
-                                                        + ("3 sampled" if ctx.quick else "all 541") + " weak orders"),
-                               "N=5 " + ("sampled clocks" if ctx.quick else "exhaustive"), ctx.pick(10, 420))
+        e4 = enumerated("cases4", 4, 4, 0, "all 64 canonical DAGs x all 75 weak orders of timestamps")
+        records += replay_dump(ctx, pool, 4, e4, "N=4 exhaustive", ctx.pick(22, 240))
+        e5 = enumerated("cases5", 5, 5, ctx.pick(3, 0), "all 1024 canonical DAGs x "
+                        + ("3 sampled" if ctx.quick else "all 541") + " weak orders")
+        records += replay_dump(ctx, pool, 5, e5, "N=5 " + ("sampled clocks" if ctx.quick else "exhaustive"), ctx.pick(10, 420))
+        # ---- 4b. spec -> code: the repository's view differs from the commit objects (shallow / graft)
+        #      while a commit-graph written earlier still covers the cut commit
+        records += replay_views(ctx, pool, 4, jobs.get("views4"), os.path.join(d, "views4"), e4[1], None,
+                                "N=4 views (shallow/graft x stale commit-graph)")
+        records += replay_views(ctx, pool, 5, jobs.get("views5"), os.path.join(d, "views5"), e5[1], ctx.pick(400, None),
+                                "N=5 views (shallow/graft x stale commit-graph)" + (" sampled" if ctx.quick else ""))
+        del e4, e5
         if not ctx.quick:
             records += replay_dump(ctx, pool, 6, enumerated("cases6", 6, 6, 4, "all 32768 canonical DAGs x 4 sampled weak orders"),
                                    "N=6 sampled clocks", 180)
@@ -848,7 +910,8 @@ def run(ctx):
         "tie-breaks of both priority queues are by commit id: explored as id order = numbering order and its reverse (ids mined)",
         "history walks: exclusion/since exactness only demanded for monotone clocks (statement); paths/follow not modelled",
         "C git 2.39.5 is a third opinion on a sample; it first validates the specification",
-        "grafts and shallow boundaries are not exercised",
+        "grafts and shallow boundaries: one cut commit per history in the enumerated views (N<=5), 1-2 in random histories; "
+        "the commit-graph is always one generated from the commit objects (written before the cut)",
     ]
     return ctx.finish(exhaustive=False)
 
